@@ -1,7 +1,7 @@
 """C19 allocation failure: ownership on every exit, checked allocations, reported failures."""
 from ksirules.flow import path_lines, status_var
 from ksirules.model import AnalysisBroken
-from ksirules.ownership import analyse, dangling_fields, is_release, unchecked_allocations
+from ksirules.ownership import absorbed_param_release, analyse, dangling_fields, is_release, unchecked_allocations
 from ksirules.status import dropped_errors
 
 TITLE = "a failed allocation yields an error, never a crash, leak or corruption"
@@ -29,6 +29,30 @@ def ownership_obligations(prog, chk, rule, units=None):
     return nfn
 
 
+def absorbed_obligations(prog, chk, rule, units=None):
+    """A parameter that a callee stored into a new object must not be destroyed with that object on an error exit."""
+    n = 0
+    for fn in sorted(prog.all_functions(), key=lambda f: (f.unit, f.line)):
+        if units is not None and fn.unit not in units:
+            continue
+        ex = []
+        res = absorbed_param_release(prog, fn, ex)
+        bad = set()
+        for (b, i, pn, r, callee, rel, line, callers, fields) in res:
+            bad.add((callee, pn, r))
+            chk.ob(rule, "%s:%s-in-%s" % (fn.name, pn, r), False,
+                   "%s stores the caller's %s into %s->%s; on an error exit %s(%s) destroys it together with %s, and the caller still owns "
+                   "%s: %s" % (callee, pn, r, "/".join(fields), rel, r, r, pn, "; ".join(callers[:3])),
+                   loc=fn.loc(line), fn=fn)
+        for (fname, callee, pn, r, fields) in ex:
+            if (callee, pn, r) not in bad:
+                n += 1
+                chk.ob(rule, "%s:%s-in-%s" % (fn.name, pn, r), True,
+                       "%s stores %s into %s->%s: on every error exit %s is released only after the field was detached, or not at all, or no "
+                       "caller releases %s itself" % (callee, pn, r, "/".join(fields), r, pn), loc=fn.loc(), fn=fn)
+    return n
+
+
 def run(prog, chk):
     chk.explanation = (
         "(R4) for every function of the 40 units and every pointer local that receives an object from a producer (derived from the callee's "
@@ -45,6 +69,7 @@ def run(prog, chk):
     chk.assume("a producer leaves its out-parameter untouched when it fails (true of the res/tmp/*out = tmp idiom; checked for the producers derived from source)")
     chk.rule("C19.funnel", "only KSI_malloc / KSI_calloc / KSI_free call the C allocator", floor=1)
     chk.rule("C19.owner", "owning locals are released exactly once or handed over on every path", floor=250)
+    chk.rule("C19.absorbed", "an error exit does not destroy a caller's object that was linked into a new object (the caller releases it too)", floor=3)
     chk.rule("C19.dangling", "a released field of a live object is reassigned before the function returns", floor=20)
     chk.rule("C19.nullcheck", "allocation results are compared with NULL before the first dereference", floor=60)
     chk.rule("C19.dropped", "no error status is overwritten before it can be observed", floor=400)
@@ -62,6 +87,7 @@ def run(prog, chk):
            loc="src/ksi/base.c")
 
     ownership_obligations(prog, chk, "C19.owner")
+    absorbed_obligations(prog, chk, "C19.absorbed")
 
     for fn in sorted(prog.all_functions(), key=lambda f: (f.unit, f.line)):
         d = dangling_fields(prog, fn)
